@@ -138,6 +138,26 @@ func vfGenTimes(rt *rapid.T, n int, res int64, slow bool) ([]int64, string) {
 }
 
 // vfGenNaN decides whether the next sample is a NaN (ordinary or stale marker).
+// vfApplyNaNRuns overwrites 0..3 index ranges of xs with NaNs (see applyNaNRuns of the external group).
+func vfApplyNaNRuns(rt *rapid.T, xs []sample) int {
+	runs := rapid.SampledFrom([]int{0, 0, 0, 1, 1, 2, 3}).Draw(rt, "nanRuns")
+	longest := 0
+	for r := 0; r < runs && len(xs) > 0; r++ {
+		start := rapid.IntRange(0, len(xs)-1).Draw(rt, "nanRunStart")
+		n := rapid.IntRange(1, len(xs)).Draw(rt, "nanRunLen")
+		v := math.NaN()
+		if rapid.Bool().Draw(rt, "nanRunStale") {
+			v = vfStaleNaN
+		}
+		end := min(len(xs), start+n)
+		for i := start; i < end; i++ {
+			xs[i].v = v
+		}
+		longest = max(longest, end-start)
+	}
+	return longest
+}
+
 func vfGenNaN(rt *rapid.T, nanRate int) (float64, bool) {
 	if nanRate > 0 && rapid.IntRange(1, nanRate).Draw(rt, "nan?") == 1 {
 		if rapid.Bool().Draw(rt, "stale") {
@@ -178,6 +198,9 @@ func vfGenGauge(rt *rapid.T, res int64, slow bool) ([]sample, string) {
 			xs[i].v = cst
 		}
 	}
+	if run := vfApplyNaNRuns(rt, xs); run > 0 {
+		return xs, tmode + "/" + vkind + "/nanrun"
+	}
 	return xs, tmode + "/" + vkind
 }
 
@@ -216,6 +239,7 @@ func vfGenCounter(rt *rapid.T, res int64, slow bool) ([]sample, string) {
 		}
 		xs[i].v = float64(cur) / vfDiv
 	}
+	vfApplyNaNRuns(rt, xs)
 	return xs, fmt.Sprintf("%s/reset1in%d", tmode, resetRate)
 }
 
